@@ -771,3 +771,107 @@ def serial_independent_copies(ctx):
                 ctx.violation(f'rt:shared-state-between-copies:{kind}:{path}', why,
                               {'family': kind, 'path': path, 'repro': ('from vf.extra_oracles2 import serial_independent_copies_replay\n'
                                                                        f'why = serial_independent_copies_replay({kind!r}, {path!r})\nprint(why)\nassert why is None\n')})
+
+
+# ======================================================================================================================
+# round 5 - size extremes: a long batch is the concatenation of its pieces (no chunk boundary, no large-batch shortcut shows)
+# ======================================================================================================================
+def biv_long_batch_replay(fam, th, meth, n):
+    from .extra_oracles import _biv_new
+    rs = np.random.RandomState(41)
+    X = np.column_stack([rs.uniform(0.02, 0.98, n), rs.uniform(0.02, 0.98, n)])
+    o = _biv_new(fam, th)
+    with np.errstate(all='ignore'):
+        if meth == 'percent_point':
+            whole = np.asarray(o.percent_point(X[:, 0].copy(), X[:, 1].copy()), dtype=float)
+            idx = np.r_[0:40, n // 2:n // 2 + 40, n - 40:n, rs.randint(0, n, 120)]       # pieces: the two ends, the middle, random lanes
+            alone = np.asarray(_biv_new(fam, th).percent_point(X[idx, 0].copy(), X[idx, 1].copy()), dtype=float)
+            part = whole[idx]
+            back = np.asarray(_biv_new(fam, th).partial_derivative(np.column_stack([whole, X[:, 1]])), dtype=float)
+            worst = int(np.nanargmax(np.abs(back - X[:, 0])))
+            if not np.all(np.isfinite(whole)) or abs(back[worst] - X[worst, 0]) > 1e-6:
+                return (f'{fam} theta={th}: percent_point on a vector of {n} points: element {worst} = {whole[worst]!r} has conditional CDF {back[worst]!r} '
+                        f'instead of y = {X[worst, 0]!r}')
+        else:
+            whole = np.asarray(getattr(o, meth)(X.copy()), dtype=float)
+            idx = np.arange(n)
+            alone = np.concatenate([np.asarray(getattr(_biv_new(fam, th), meth)(X[a:a + 5000].copy()), dtype=float) for a in range(0, n, 5000)])
+            part = whole
+    if part.shape != alone.shape or not np.allclose(part, alone, rtol=1e-12, atol=1e-300, equal_nan=True):
+        k = int(np.nanargmax(np.abs(part - alone))) if part.shape == alone.shape else 0
+        return (f'{fam} theta={th}: {meth} of row {int(idx[k])} of a batch of {n} rows is {part[k]!r}; the same row evaluated in a small batch gives '
+                f'{alone[k]!r} (rows differing: {int(np.sum(~np.isclose(part, alone, rtol=1e-12, atol=1e-300, equal_nan=True))) if part.shape == alone.shape else "shape"})')
+    return None
+
+
+def biv_long_batch(ctx, methods, thorough=False):
+    for fam, th in (('clayton', 3.0), ('frank', 6.0), ('gumbel', 2.5)):
+        for meth in methods:
+            if meth == 'sample':
+                continue
+            if meth == 'percent_point':
+                if fam == 'clayton':
+                    n = 150001
+                else:
+                    n = 40001 if thorough else (12001 if fam == 'frank' else 0)
+            else:
+                n = 150001
+            if not n:
+                continue
+            ctx.case(('long-batch', fam, meth, n), {'family': fam, 'method': meth, 'rows': n})
+            try:
+                why = biv_long_batch_replay(fam, th, meth, n)
+            except Exception as ex:
+                why = f'raised {type(ex).__name__}: {str(ex)[:120]}'
+            ctx.obligation(f'oracle:long-batch:{fam}:{meth}:{n}', why is None, 'correspondence', why or '')
+            if why:
+                ctx.violation(f'search:long-batch:{meth}:{fam}', why,
+                              {'family': fam, 'theta': th, 'method': meth, 'rows': n,
+                               'repro': ('from vf.extra_oracles2 import biv_long_batch_replay\n'
+                                         f'why = biv_long_batch_replay({fam!r}, {th!r}, {meth!r}, {n})\nprint(why)\nassert why is None\n')})
+
+
+# ======================================================================================================================
+# round 5 - API surface: theta given as a Python / numpy INTEGER (hand-written dicts, JSON files with "theta": 2)
+# ======================================================================================================================
+def biv_integer_theta_replay(fam, meth):
+    from copulas.bivariate import Bivariate
+    th = {'clayton': 2, 'frank': -3, 'gumbel': 2}[fam]
+    X = np.column_stack([np.linspace(0.05, 0.95, 13), np.linspace(0.9, 0.1, 13)])
+    ref = Bivariate(copula_type=fam)
+    ref.theta, ref.tau = float(th), 0.3
+    out = {}
+    for how in ('python-int', 'numpy-int64', 'from_dict-int'):
+        if how == 'from_dict-int':
+            o = Bivariate.from_dict({'copula_type': fam.upper(), 'theta': th, 'tau': 0.3})
+        else:
+            o = Bivariate(copula_type=fam)
+            o.theta, o.tau = (th if how == 'python-int' else np.int64(th)), 0.3
+        with np.errstate(all='ignore'):
+            if meth == 'percent_point':
+                got = np.asarray(o.percent_point(X[:, 0].copy(), X[:, 1].copy()), dtype=float)
+                want = np.asarray(ref.percent_point(X[:, 0].copy(), X[:, 1].copy()), dtype=float)
+            else:
+                got = np.asarray(getattr(o, meth)(X.copy()), dtype=float)
+                want = np.asarray(getattr(ref, meth)(X.copy()), dtype=float)
+        if got.shape != want.shape or not np.allclose(got, want, rtol=1e-9, atol=1e-12, equal_nan=True):
+            k = int(np.nanargmax(np.abs(got - want))) if got.shape == want.shape else 0
+            return (f'{fam}: {meth} with theta = {th} given as {how} returns {got[k]!r} at {X[k].tolist()}; with theta = {float(th)} (float) it returns {want[k]!r}')
+    return None
+
+
+def biv_integer_theta(ctx, methods):
+    for fam in ('clayton', 'frank', 'gumbel'):
+        for meth in methods:
+            if meth == 'sample':
+                continue
+            ctx.case(('integer-theta', fam, meth), None)
+            try:
+                why = biv_integer_theta_replay(fam, meth)
+            except Exception as ex:
+                why = f'raised {type(ex).__name__}: {str(ex)[:120]}'
+            ctx.obligation(f'oracle:integer-theta:{fam}:{meth}', why is None, 'correspondence', why or '')
+            if why:
+                ctx.violation(f'search:integer-theta:{meth}:{fam}', why,
+                              {'family': fam, 'method': meth, 'repro': ('from vf.extra_oracles2 import biv_integer_theta_replay\n'
+                                                                        f'why = biv_integer_theta_replay({fam!r}, {meth!r})\nprint(why)\nassert why is None\n')})
